@@ -14,6 +14,10 @@ use std::rc::Rc;
 pub struct GCase {
     pub spec: GrammarSpec,
     pub tapes: Vec<InputTape>,
+    /// layout runs that end in a line break after blanks (`" \n"`, `"\t\r\n"`, ...) are
+    /// used for every second input (properties that look at positions)
+    #[serde(default)]
+    pub lines: bool,
 }
 
 pub fn gcase(
@@ -21,8 +25,8 @@ pub fn gcase(
     ninputs: std::ops::Range<usize>,
     tape_len: usize,
 ) -> BoxedStrategy<GCase> {
-    (gen::g_bnf(p), gen::tapes(ninputs, tape_len))
-        .prop_map(|(spec, tapes)| GCase { spec, tapes })
+    (gen::g_bnf(p), gen::tapes(ninputs, tape_len), proptest::bool::ANY)
+        .prop_map(|(spec, tapes, lines)| GCase { spec, tapes, lines })
         .boxed()
 }
 
